@@ -94,8 +94,8 @@ func exhScope(c *fw.Ctx, scope string, alphabet []byte, L int) {
 				}
 			}
 			rec(2)
-			if p < 3 {
-				c.Sample(map[string]interface{}{"case": "exhaustive", "prefix": hx(pre), "strings": exhTotal(L - 2), "targets": len(smallTargets)})
+			if p == 0 && scope == "a" {
+				c.Sample(map[string]interface{}{"case": "exhaustive", "prefix": hx(pre), "scope": scope, "strings_under_prefix": scopeTotal(A, L-2), "targets": len(smallTargets)})
 			}
 		})
 	}
